@@ -3,7 +3,11 @@ import PkgModel.Generated.MarkerTok
 /-!
 # Marker — model of `packaging.markers` and of the marker part of `_parser.py` / `_tokenizer.py`
 
-The model mirrors the code as it is (C07, C09):
+The model mirrors the code (C07, C09) **with the repairs proposed in findings_proposed/C07-fix-1,2 and
+C09-fix-1…4 applied** (`_eval_op` falls back on `InvalidVersion`; `_get_env` raises
+`UndefinedEnvironmentName`; `_format_marker` passes `first` on; `_normalize_extra_values` walks the whole
+tree; `Value.serialize` chooses the delimiter; `literal_eval` failures become syntax errors).  The unrepaired
+variants of the three string-form functions are kept as `C09.Old.*` with witnesses of what they broke.
 
 * the context-sensitive tokenizer (`Tokenizer.check/read/consume/expect`) as `matchRule` on a state
   `(previous character, remaining text)` — the previous character is what `\b` looks at when
